@@ -333,10 +333,11 @@ impl World {
     fn deliver(&mut self, p: &Packet) -> String {
         let mut s = self.ack_tokens(p);
         self.sim.deliver_packet(p);
-        s += &self.completions();
+        // a match change caused by this datagram comes before the completions it triggered
         if p.meta {
             s += &self.matched_changes();
         }
+        s += &self.completions();
         s
     }
 
